@@ -100,8 +100,6 @@ func handle(line string) string {
 			out = append(out, "stale")
 		}
 		return strings.Join(out, " ")
-	case "rfsrc":
-		return "src"
 	}
 	return "bad-case"
 }
